@@ -36,6 +36,18 @@ class Injected(RuntimeError):
     pass
 
 
+class InjectedBase(BaseException):
+    """A fault that is not an Exception (like KeyboardInterrupt/SystemExit)."""
+
+
+# how the n-th storage call of a command fails
+KINDS = ('exc',        # raises an ordinary exception
+         'cancelled',  # raises asyncio.CancelledError
+         'base',       # raises a BaseException that is not an Exception
+         'suspend')    # awaits; the connection task is cancelled meanwhile
+WATCHDOG = 8.0         # seconds without the tagged response = the command hangs
+
+
 class FaultPlan:
     """Wraps the storage calls of the dict backend in this process."""
 
@@ -43,6 +55,9 @@ class FaultPlan:
 
     def __init__(self) -> None:
         self.armed: int | None = None       # raise at this call index
+        self.kind = 'exc'
+        self.suspended = asyncio.Event()
+        self.release = asyncio.Event()
         self.calls = 0
         self.fired = False
         self.census: list = []              # glass-box census at every call boundary
@@ -68,6 +83,16 @@ class FaultPlan:
                     plan.calls += 1
                     if plan.armed is not None and not plan.fired and idx == plan.armed:
                         plan.fired = True
+                        if plan.kind == 'cancelled':
+                            raise asyncio.CancelledError()
+                        if plan.kind == 'base':
+                            raise InjectedBase(f'injected in storage call {idx} ({name})')
+                        if plan.kind == 'suspend':
+                            # a storage call that awaits (a lock, a thread):
+                            # the harness cancels the connection task now
+                            plan.suspended.set()
+                            await plan.release.wait()
+                            raise Injected('suspended storage call was not cancelled')
                         raise Injected(f'injected fault in storage call {idx} ({name})')
                     ret = await orig(self_, *a, **k)
                     if plan.observe is not None:
@@ -81,9 +106,28 @@ class FaultPlan:
         for name, orig in self._orig.items():
             setattr(MailboxData, name, orig)
 
-    def arm(self, n: int | None) -> None:
-        self.armed, self.calls, self.fired = n, 0, False
+    def arm(self, n: int | None, kind: str = 'exc') -> None:
+        self.armed, self.calls, self.fired, self.kind = n, 0, False, kind
         self.census, self.tick_log = [], []
+        self.suspended = asyncio.Event()
+        self.release = asyncio.Event()
+
+
+async def send_watched(conn, plan: FaultPlan, line: bytes) -> bytes | None:
+    """Send a command with the fault armed; cancel the connection task when
+    the storage call suspends; None = no tagged response within WATCHDOG."""
+    task = asyncio.ensure_future(conn.send(line))
+    if plan.armed is not None and plan.kind == 'suspend':
+        sus = asyncio.ensure_future(plan.suspended.wait())
+        await asyncio.wait({task, sus}, timeout=WATCHDOG, return_when=asyncio.FIRST_COMPLETED)
+        if sus.done() and not task.done():
+            conn.task.cancel()
+            plan.release.set()
+        sus.cancel()
+    try:
+        return await asyncio.wait_for(task, WATCHDOG)
+    except asyncio.TimeoutError:
+        return None
 
 
 def literal_msg(cid: int) -> bytes:
@@ -148,9 +192,10 @@ def box_name(bid: int) -> bytes:
     return BOXES.get(bid, MISSING)
 
 
-async def run_dict_cmd(env, conn, c, plan: FaultPlan, fault) -> tuple[str, bytes]:
+async def run_dict_cmd(env, conn, c, plan: FaultPlan, fault, kind='exc') -> tuple[str, bytes]:
     """Execute one model command on the real server with the fault armed for
-    exactly the storage calls of that command."""
+    exactly the storage calls of that command.  Status 'HANG' = the command
+    produced no tagged response (and no BYE) within the watchdog time."""
     k = c[0]
     tag = b'x1'
     if k == 'append':
@@ -159,15 +204,12 @@ async def run_dict_cmd(env, conn, c, plan: FaultPlan, fault) -> tuple[str, bytes
             m = literal_msg(cid)
             line += b' {%d+}\r\n' % len(m) + m
         line += b'\r\n'
-        plan.arm(fault)
-        r = await conn.send(line)
     elif k in ('copy', 'move'):
         r0 = await conn.send(b's1 SELECT ' + box_name(c[1]) + b'\r\n')
         if b's1 OK' not in r0:
             return 'NO', r0
-        plan.arm(fault)
-        r = await conn.send(tag + b' UID ' + k.upper().encode() + b' '
-                            + ','.join(map(str, c[2])).encode() + b' ' + box_name(c[3]) + b'\r\n')
+        line = (tag + b' UID ' + k.upper().encode() + b' '
+                + ','.join(map(str, c[2])).encode() + b' ' + box_name(c[3]) + b'\r\n')
     elif k == 'expunge':
         r0 = await conn.send(b's1 SELECT ' + box_name(c[1]) + b'\r\n')
         if b's1 OK' not in r0:
@@ -177,13 +219,18 @@ async def run_dict_cmd(env, conn, c, plan: FaultPlan, fault) -> tuple[str, bytes
         if c[2]:
             await conn.send(b's3 UID STORE ' + ','.join(map(str, c[2])).encode()
                             + b' +FLAGS.SILENT (\\Deleted)\r\n')
-        plan.arm(fault)
-        r = await conn.send(tag + b' EXPUNGE\r\n')
+        line = tag + b' EXPUNGE\r\n'
     else:
-        plan.arm(fault)
-        r = await conn.send(tag + b' FROBNICATE\r\n')
+        line = tag + b' FROBNICATE\r\n'
+    plan.arm(fault, kind)
+    r = await send_watched(conn, plan, line)
     plan.arm(None)
-    return M.status_of(tag, r), r
+    if r is None:
+        return 'HANG', b''
+    st = M.status_of(tag, r)
+    if st == 'NONE' and conn.closed:
+        st = 'BYE'          # the connection ended without a tagged response
+    return st, r
 
 
 def gen_dict_cmd(rng, st: dict, next_cid: list) -> tuple:
@@ -207,7 +254,8 @@ def gen_dict_cmd(rng, st: dict, next_cid: list) -> tuple:
         pick = sorted(rng.sample(uids, rng.randint(1, min(3, len(uids)))))
         if rng.random() < 0.2:
             pick.append(max(uids) + 5)          # a uid that does not exist
-        dst = rng.choice([1, 2, 2, 3]) if k == 'copy' else rng.choice([d for d in (1, 2, 3) if d != src])
+        # the destination may be the (selected) source mailbox itself
+        dst = rng.choice([1, 2, 2, 3]) if k == 'copy' else rng.choice([1, 2, 3, src])
         c = (k, src, pick, dst)
         ncalls = len(pick)
     elif k == 'expunge':
@@ -223,7 +271,7 @@ def gen_dict_cmd(rng, st: dict, next_cid: list) -> tuple:
         fault = None
     else:
         fault = rng.randrange(ncalls + 1) if rng.random() < 0.9 else ncalls + 2
-    return c, fault
+    return c, fault, rng.choice(KINDS)
 
 
 def multiset(st: dict) -> list:
@@ -249,14 +297,37 @@ async def dict_session(ctx, rng, steps: int, cases: list, keep: list) -> None:
                 probe = await env.login()
             before = box_state(env, names)
             seen_before = await probe_state(probe, names)
-            c, fault = gen_dict_cmd(rng, before, next_cid)
-            status, raw = await run_dict_cmd(env, conn, c, plan, fault)
+            c, fault, kind = gen_dict_cmd(rng, before, next_cid)
+            status, raw = await run_dict_cmd(env, conn, c, plan, fault, kind)
             census = list(plan.census)
+            hang = status == 'HANG'
+            if hang:
+                # no tagged response: tear the connection down, then look at
+                # what is left (the conservation monitors below still apply)
+                conn.task.cancel()
+                try:
+                    await asyncio.wait_for(asyncio.shield(conn.task), 5)
+                except BaseException:
+                    pass
+                ctx.failure('move_conserved' if c[0] == 'move' else 'observation',
+                            f'{c} (fault {fault}/{kind}) produced no tagged response within '
+                            f'{WATCHDOG} s: the command hangs',
+                            {'backend': 'dict', 'before': _js(before), 'cmd': c, 'fault': fault,
+                             'kind': kind}, {'kind': 'command_hangs'})
             after = box_state(env, names)
+            if hang:
+                if c[0] == 'move' and multiset(after) != multiset(before):
+                    ctx.failure('move_conserved',
+                                f'after the hanging {c} was torn down the mailboxes hold '
+                                f'{multiset(after)}, before {multiset(before)}',
+                                {'backend': 'dict', 'before': _js(before), 'cmd': c},
+                                {'kind': 'move_lost_or_duplicated'})
+                return           # this server instance is wedged: start a fresh one
             seen = await probe_state(probe, names)
-            ctx.count(('dict', json.dumps(c), fault, status), nontrivial=c[0] != 'bad')
+            ctx.count(('dict', json.dumps(c), fault, kind if fault is not None else None, status),
+                      nontrivial=c[0] != 'bad')
             replay = {'backend': 'dict', 'before': _js(before), 'cmd': c, 'fault': fault,
-                      'status': status}
+                      'kind': kind, 'status': status}
             # -- monitors (written against the statement, not the model)
             if {n: (mx, sorted(ms)) for n, (mx, ms) in after.items()} != seen:
                 ctx.failure('observation', 'a second session sees other mailbox contents than '
@@ -428,6 +499,103 @@ async def drops_and_cancels(ctx) -> None:
                         f'{_js(after)}', {'how': how}, {'kind': 'move_not_removed'})
 
 
+async def faults_inside_storage_calls(ctx) -> None:
+    """Deterministic sweep: every fault kind (ordinary exception,
+    CancelledError, a BaseException that is not an Exception, cancellation of
+    the connection task while the call is suspended) at every storage call of a
+    three-message APPEND and of a two-message MOVE; MOVE and COPY whose
+    destination is the selected source mailbox itself, under a watchdog."""
+    names = list(BOXES.values())
+
+    async def fresh(plan):
+        env = await DictEnv().start()
+        conn = await env.login()
+        for n in names:
+            await conn.send(b'c0 CREATE ' + n + b'\r\n')
+        plan.arm(None)
+        await conn.send(b'c1 APPEND boxa {%d+}\r\n' % len(literal_msg(900)) + literal_msg(900)
+                        + b' {%d+}\r\n' % len(literal_msg(899)) + literal_msg(899) + b'\r\n')
+        return env, conn
+    plan = FaultPlan()
+    plan.install()
+    try:
+        for kind in KINDS:
+            for idx in range(3):
+                env, conn = await fresh(plan)
+                before = box_state(env, names)
+                c = ('append', 1, [911, 912, 913])
+                status, _ = await run_dict_cmd(env, conn, c, plan, idx, kind)
+                after = box_state(env, names)
+                ctx.count(('sweep', 'append', kind, idx))
+                if status == 'OK' or {n: v[1] for n, v in after.items()} != \
+                        {n: v[1] for n, v in before.items()}:
+                    ctx.failure('multiappend_all_or_nothing',
+                                f'three-message APPEND whose storage call {idx} fails ({kind}) '
+                                f'ended in {status} and left {_js(after)}',
+                                {'backend': 'dict', 'cmd': c, 'fault': idx, 'kind': kind},
+                                {'kind': 'append_half_applied', 'backend': 'dict'})
+            for idx in range(2):
+                env, conn = await fresh(plan)
+                before = multiset(box_state(env, names))
+                c = ('move', 1, [101, 102], 2)
+                status, _ = await run_dict_cmd(env, conn, c, plan, idx, kind)
+                after = multiset(box_state(env, names))
+                ctx.count(('sweep', 'move', kind, idx))
+                if after != before or status == 'HANG':
+                    ctx.failure('move_conserved', f'MOVE whose storage call {idx} fails ({kind}): '
+                                f'{status}, contents {after}, before {before}',
+                                {'backend': 'dict', 'cmd': c, 'fault': idx, 'kind': kind},
+                                {'kind': 'move_lost_or_duplicated'})
+        # destination = the selected source mailbox itself
+        for verb in ('move', 'copy'):
+            env, conn = await fresh(plan)
+            before = box_state(env, names)
+            c = (verb, 1, [101], 1)
+            status, _ = await run_dict_cmd(env, conn, c, plan, None)
+            ctx.count(('sweep', 'same_mailbox', verb))
+            if status == 'HANG':
+                conn.task.cancel()
+                try:
+                    await asyncio.wait_for(asyncio.shield(conn.task), 5)
+                except BaseException:
+                    pass
+            after = box_state(env, names)
+            want = sorted([900, 899] + ([900] if verb == 'copy' else []))
+            if status != 'OK' or multiset(after) != want:
+                ctx.failure('move_conserved',
+                            f'{verb.upper()} of a message into the selected mailbox itself: '
+                            f'{"no tagged response (the command hangs)" if status == "HANG" else status}'
+                            f'; the mailboxes then hold {multiset(after)}, expected {want}',
+                            {'backend': 'dict', 'cmd': c, 'before': _js(before)},
+                            {'kind': 'command_hangs' if status == 'HANG'
+                             else 'move_lost_or_duplicated'})
+        # the same mailbox under two spellings of its name (INBOX is
+        # case-insensitive): SELECT INBOX; UID MOVE n inbox
+        env = await DictEnv().start()
+        conn = await env.login()
+        mbs = next(iter(env.config.set_cache.values()))[0]
+        before = sorted(len(bytes(m._content)) for m in mbs._inbox._messages.values())
+        await conn.send(b's1 SELECT INBOX\r\n')
+        plan.arm(None)
+        r = await send_watched(conn, plan, b'x1 UID MOVE 101 inbox\r\n')
+        ctx.count(('sweep', 'same_mailbox', 'inbox_spelling'))
+        if r is None:
+            conn.task.cancel()
+            try:
+                await asyncio.wait_for(asyncio.shield(conn.task), 5)
+            except BaseException:
+                pass
+        after = sorted(len(bytes(m._content)) for m in mbs._inbox._messages.values())
+        if r is None or b'x1 OK' not in r or after != before:
+            ctx.failure('move_conserved',
+                        f'SELECT INBOX; UID MOVE 101 inbox: '
+                        f'{"no tagged response (hangs)" if r is None else r[-60:]!r}; INBOX message '
+                        f'sizes {after}, before {before}', {'backend': 'dict'},
+                        {'kind': 'command_hangs' if r is None else 'move_lost_or_duplicated'})
+    finally:
+        plan.uninstall()
+
+
 def move_window_calls(ctx) -> None:
     """Which Python functions run inside MailboxData.move between the removal
     from the source and the insertion into the destination: only lock
@@ -487,6 +655,8 @@ def maildir_histories(rng, n: int) -> list:
         [('create', ['foo']), A([], ('S', 1), ('', 2)), ('select', []),
          ('move', [1, 2], ['foo']), ('select', ['foo']), ('move', [1], [])],
         [A([], ('', 1), ('F', 2), ('S', 3))],
+        [A([], ('', 1), ('S', 2)), ('select', []), ('move', [1, 2], []), ('copy', [3], []),
+         ('check',)],
         [('create', ['foo']), A(['foo'], ('', 1), ('', 2)), ('select', ['foo']),
          ('copy', [1, 2], []), ('store', [1], '+', 'T'), ('expunge',)],
     ]
@@ -513,7 +683,25 @@ def maildir_failures(res: dict, cr: dict) -> list:
 
     def bodies(d):
         return sorted(m['body'] for f in d['folders'].values() for m in f['msgs'])
-    if inflight is None or inflight[0] in ('move', 'select', 'store', 'check', 'create', 'noop'):
+    self_move = False
+    if inflight is not None and inflight[0] == 'move':
+        sel = [MM._tup(c['cmd'])[1] for c in cmds[:a] if c['cmd'][0] in ('select', 'examine')]
+        self_move = bool(sel) and list(sel[-1]) == list(inflight[2])
+    if self_move:
+        # MOVE into the selected mailbox itself is copy + delete: while it is in
+        # flight a moved message may exist twice, it may never be missing
+        got, want = bodies(rec), bodies(prev)
+        extra = list(got)
+        for b_ in want:
+            if b_ in extra:
+                extra.remove(b_)
+            else:
+                fails.append(('move_conserved', f'a kill at operation {cr["k"]} of {inflight} '
+                              f'(into the selected mailbox itself) lost cid '
+                              f'{M.cid_of(bytes.fromhex(b_))}', {'kind': 'move_lost_or_duplicated'}))
+        if any(b_ not in want for b_ in extra):
+            fails.append(('move_conserved', 'unknown content appeared', {'kind': 'lost_or_duplicated'}))
+    elif inflight is None or inflight[0] in ('move', 'select', 'store', 'check', 'create', 'noop'):
         # nothing may be lost or duplicated: same multiset of contents
         if bodies(rec) != bodies(prev):
             lost = [M.cid_of(bytes.fromhex(b_)) for b_ in bodies(prev) if b_ not in bodies(rec)]
@@ -609,6 +797,7 @@ def run(ctx) -> None:
     for name, sec in (('dict', section_dict),
                       ('atomicity', lambda c: arun(measure_atomicity(c))),
                       ('drops', lambda c: arun(drops_and_cancels(c), timeout=300)),
+                      ('fault_sweep', lambda c: arun(faults_inside_storage_calls(c), timeout=400)),
                       ('move_window', move_window_calls),
                       ('maildir', section_maildir)):
         t0 = time.time()
